@@ -38,6 +38,11 @@ LEVEL_TEXT += (
     "div of H(div) fields in both variants, completeness of the "
     "operator set of the field wrapper, quotients stored into "
     "like-buffers.")
+LEVEL_TEXT += (
+    " Added in the third round (DESIGN.md 9.6): divergence of a "
+    "matrix-valued field (spec div_matrix, both variants); the JAX eye "
+    "with a field argument; the autodiff field wrapper defines __iter__ "
+    "and opts out of NumPy's operator dispatch.")
 LEVEL_NOTE = (
     "Trusted: numpy/jax.numpy einsum, array literals and pointwise "
     "arithmetic follow their documented semantics; jax.linearize / jvp are "
